@@ -1060,6 +1060,14 @@ def U1(ctx, rule="U1"):
                         roles = holder_roles(ctx, gb, strip_refs(de[1]))
                         if "DONE" in roles and "1" not in vals:
                             okn = True
+                        # `match ready_rx.poll_recv(cx) { Ready(None) => Ready(None), .. }`: the READY channel's own end-of-stream
+                        # handed on (its senders are released only at the countdown's end / for the empty graph: U1.*-FINISHED/EMPTY)
+                        inner = strip_refs(de[1])
+                        names = [x[2] for x in walk_expr(inner) if x.kind == "downcast"]
+                        if names in (["Ready"], []) and "1" not in vals:
+                            rs, _ = m.roles_of_sources(sources_of_expr(ctx, gb, inner, mode="taint"), half=1)
+                            if rs == {"READY"} and any(x.kind == "call" and x[1] in RECV_FNS for x in walk_expr(inner)):
+                                okn = True
                 for sb, x, rel in guard_eq_zero(gb, bb):
                     if rel == "eq0" and not isinstance(x, str):
                         srcs = sources_of_expr(ctx, gb, x, mode="prov")
